@@ -1,7 +1,9 @@
 package main
 
 import (
+	"fmt"
 	"go/token"
+	"strings"
 
 	"golang.org/x/tools/go/ssa"
 )
@@ -184,6 +186,9 @@ func checkC14(c *Ctx) {
 		}
 	}
 
+	checkVersionRangeTable(c)
+	checkOverwriteTable(c)
+
 	// (3)
 	var wvCall ssa.Value
 	for _, in := range callsIn(sv, predStatic(wv)) {
@@ -242,4 +247,150 @@ func checkC14(c *Ctx) {
 	}
 	c.decide("FLOW-commit-number", "WorkingVersion = version+1 | InitialVersion", l.pos(wv.Pos()), okShape,
 		"returns tree.version+1 or the configured initial version", "WorkingVersion() returns something other than version+1 / Options.InitialVersion")
+}
+
+// checkVersionRangeTable: versionExists as a decision table over the position
+// of the queried version relative to the legacy boundary, the first and the
+// latest version.
+func checkVersionRangeTable(c *Ctx) {
+	l := c.L
+	c.rule("TABLE-version-range", "VersionExists = legacy lookup below the boundary, else first <= v <= latest", 12)
+	fn := l.Func("", "*MutableTree.versionExists")
+	if fn == nil {
+		c.anchorMissing("TABLE-version-range", "MutableTree.versionExists")
+		return
+	}
+	for _, vsLegacy := range []int{-1, 0, 1} {
+		for _, vsFirst := range []int{-1, 0, 1} {
+			for _, vsLatest := range []int{-1, 0, 1} {
+				for _, found := range []bool{true, false} {
+					if vsLegacy <= 0 && (vsFirst != 0 || vsLatest != 0 || !found) {
+						continue // below the boundary nothing else is consulted
+					}
+					vsLegacy, vsFirst, vsLatest, found := vsLegacy, vsFirst, vsLatest, found
+					env := &tableEnv{l: l, flag: map[string]int{"getLatestVersion()#0": map[bool]int{true: 1, false: -1}[found]}, cmp: func(a, b string) (int, bool) { return 0, false }}
+					const V = 100
+					env.ints = func(v ssa.Value, role string) (int64, bool) {
+						switch {
+						case role == "arg0":
+							return V, true
+						case strings.HasPrefix(role, "getLegacyLatestVersion("):
+							return V - int64(vsLegacy), true
+						case strings.HasPrefix(role, "getFirstVersion("):
+							return V - int64(vsFirst), true
+						case strings.HasPrefix(role, "getLatestVersion(") && strings.HasSuffix(role, "#1"):
+							return V - int64(vsLatest), true
+						}
+						return 0, false
+					}
+					var legacyLookup bool
+					run := runTable(fn, env, func(call *ssa.Call) string {
+						if f := staticCallee(&call.Call); f != nil && f.Name() == "hasLegacyVersion" {
+							legacyLookup = true
+						}
+						return ""
+					})
+					got := "stuck"
+					if run.ret != nil {
+						got = roleOf(l, retVal(run.ret, 0), "tree", 0)
+						if legacyLookup {
+							got = "legacy-lookup"
+						}
+					}
+					want := "false"
+					switch {
+					case vsLegacy <= 0:
+						want = "legacy-lookup"
+					case found && vsFirst >= 0 && vsLatest <= 0:
+						want = "true"
+					}
+					// the in-range answer is returned as the value of the conjunction; accept the constant or the evaluated comparison
+					if got != want && run.ret != nil && !legacyLookup {
+						w2 := &walker{env: &walkEnv{evalAtom: env.atom}, vals: map[ssa.Value]int{}}
+						// re-walk to the return to resolve phis, then evaluate the returned boolean
+						env.recv = fn.Params[0].Name()
+						ret, _ := w2.run(fn)
+						if ret != nil {
+							switch w2.eval(retVal(ret, 0), 0) {
+							case 1:
+								got = "true"
+							case -1:
+								got = "false"
+							}
+						}
+					}
+					c.decide("TABLE-version-range", fmt.Sprintf("versionExists: v vs legacy %+d, vs first %+d, vs latest %+d, found=%v", vsLegacy, vsFirst, vsLatest, found), l.pos(fn.Pos()), got == want, got, "answers `"+got+"`, the range rule says `"+want+"`")
+				}
+			}
+		}
+	}
+}
+
+// checkOverwriteTable: committing an existing version number succeeds iff the
+// root hash is identical (or both trees are empty), otherwise it is an error.
+func checkOverwriteTable(c *Ctx) {
+	l := c.L
+	c.rule("TABLE-overwrite", "re-commit of an existing version: success iff identical root", 6)
+	sv := l.Func("", "*MutableTree.SaveVersion")
+	if sv == nil {
+		c.anchorMissing("TABLE-overwrite", "SaveVersion")
+		return
+	}
+	for _, storedEmpty := range []bool{true, false} {
+		for _, workingEmpty := range []bool{true, false} {
+			for _, equal := range []bool{true, false} {
+				if storedEmpty && !equal {
+					continue // no hash to compare
+				}
+				storedEmpty, workingEmpty, equal := storedEmpty, workingEmpty, equal
+				env := &tableEnv{l: l, flag: map[string]int{"versionExists()#0": 1, "VersionExists()": 1}, cmp: func(a, b string) (int, bool) {
+					if strings.HasSuffix(a, ".hash") || strings.HasSuffix(b, ".hash") {
+						if equal {
+							return 0, true
+						}
+						return 1, true
+					}
+					return 0, false
+				}}
+				env.isNil = func(role string) int {
+					switch {
+					case strings.HasPrefix(role, "GetRoot(") && strings.HasSuffix(role, "#0"):
+						if storedEmpty {
+							return 1
+						}
+						return -1
+					case strings.HasSuffix(role, "ImmutableTree.root"):
+						if workingEmpty {
+							return 1
+						}
+						return -1
+					}
+					return 0
+				}
+				wrote := false
+				run := runTable(sv, env, func(call *ssa.Call) string {
+					if f := staticCallee(&call.Call); f != nil && (f.Name() == "Commit" || f.Name() == "saveNewNodes" || f.Name() == "SaveRoot" || f.Name() == "SaveEmptyRoot") {
+						wrote = true
+					}
+					return ""
+				})
+				got := "stuck"
+				if run.ret != nil {
+					if errNilness(retVal(run.ret, 2), run.ret.Block(), 0) < 0 {
+						got = "success"
+					} else {
+						got = "error"
+					}
+					if wrote {
+						got += "+writes"
+					}
+				}
+				want := "error"
+				if (storedEmpty && workingEmpty) || (!storedEmpty && equal) {
+					want = "success"
+				}
+				c.decide("TABLE-overwrite", fmt.Sprintf("SaveVersion on an existing version: stored empty=%v working empty=%v hash equal=%v", storedEmpty, workingEmpty, equal), l.pos(sv.Pos()), got == want, got, "outcome `"+got+"`, the contract says `"+want+"` (and nothing is written either way)")
+			}
+		}
+	}
 }
